@@ -1,4 +1,200 @@
 (* C07 — broadcasts reach exactly the connections whose match rules match.
-   Theorem statements only; proofs live in Proofs/Match*.v. *)
-From DV Require Import Lib.Base Match.Rule Match.Matcher Match.Bus.
+   Theorem statements only, each closed by [exact]; proofs live in
+   Proofs/Match{Recipients,Semantics,History,Tokenize,Parse}.v.  Model:
+   Match/{Rule,Matcher,Bus}.v; specification: Spec/MatchSpec.v. *)
+From DV Require Import Lib.Base Match.Rule Match.Matcher Match.Bus Spec.MatchSpec
+  Proofs.MatchRecipients Proofs.MatchSemantics Proofs.MatchHistory Proofs.MatchTokenize.
 Local Open Scope N_scope.
+
+(* witnesses (ASCII) *)
+Definition T_eq_x : bytes := [61;120].                       (* =x *)
+Definition T_t17 : bytes := [101;97;118;101;115;100;114;111;112;61;39;116;114;117;101;39;44;101;97;118;101;115;100;114;111;112;61;39;116;114;117;101;39;44;101;97;118;101;115;100;114;111;112;61;39;116;114;117;101;39;44;101;97;118;101;115;100;114;111;112;61;39;116;114;117;101;39;44;101;97;118;101;115;100;114;111;112;61;39;116;114;117;101;39;44;101;97;118;101;115;100;114;111;112;61;39;116;114;117;101;39;44;101;97;118;101;115;100;114;111;112;61;39;116;114;117;101;39;44;101;97;118;101;115;100;114;111;112;61;39;116;114;117;101;39;44;101;97;118;101;115;100;114;111;112;61;39;116;114;117;101;39;44;101;97;118;101;115;100;114;111;112;61;39;116;114;117;101;39;44;101;97;118;101;115;100;114;111;112;61;39;116;114;117;101;39;44;101;97;118;101;115;100;114;111;112;61;39;116;114;117;101;39;44;101;97;118;101;115;100;114;111;112;61;39;116;114;117;101;39;44;101;97;118;101;115;100;114;111;112;61;39;116;114;117;101;39;44;101;97;118;101;115;100;114;111;112;61;39;116;114;117;101;39;44;101;97;118;101;115;100;114;111;112;61;39;116;114;117;101;39;44;116;121;112;101;61;39;98;111;103;117;115;39].   (* eavesdrop='true' x16 ,type='bogus' *)
+Definition T_specex : bytes := [97;114;103;48;61;92;39;44;97;114;103;49;61;92;44;97;114;103;50;61;39;44;39;44;97;114;103;51;61;92;92].   (* arg0=\',arg1=\,arg2=',',arg3=\\  (the specification's own example) *)
+Definition T_arg010 : bytes := [97;114;103;48;49;48;61;120].                     (* arg010=x *)
+Definition T_argpath_empty : bytes := [97;114;103;48;112;97;116;104;61;39;39].            (* arg0path='' *)
+Definition T_pns_x : bytes := [112;97;116;104;95;110;97;109;101;115;112;97;99;101;61;39;47;120;39].                    (* path_namespace='/x' *)
+Definition T_pns_y : bytes := [112;97;116;104;95;110;97;109;101;115;112;97;99;101;61;39;47;121;39].                    (* path_namespace='/y' *)
+Definition T_good : bytes := [116;121;112;101;61;39;115;105;103;110;97;108;39;44;105;110;116;101;114;102;97;99;101;61;39;97;46;98;39;44;97;114;103;48;112;97;116;104;61;39;47;97;47;39].   (* type='signal',interface='a.b',arg0path='/a/' *)
+Definition T_terr : bytes := [116;121;112;101;61;39;101;114;114;111;114;39].                     (* type='error' *)
+Definition M_sig (args : list marg) : msg := mkMsg 4 (Some [47]) (Some [97;46;98]) (Some [77]) None args.
+
+(* ===== 1. delivery: exactly once, to exactly the holders of a matching rule ============================ *)
+
+(* bus_matchmaker_get_recipients: no connection twice; a connection is listed iff it is not the addressed
+   recipient and owns a rule that match_rule_matches accepts; no rule evaluation faulted *)
+Theorem C07_exactly_once : forall ns mk s a m l,
+  Forall type_wf mk -> get_recipients ns mk s a m = Some l ->
+  NoDup l /\
+  (forall c, In c l <-> a <> Some c /\ exists r, In r mk /\ r_owner r = c /\ rule_matches ns r s a m false = Some true) /\
+  (forall r, In r mk -> rule_matches ns r s a m false <> None).
+Proof. exact get_recipients_exact. Qed.
+Print Assumptions C07_exactly_once.
+
+(* for every key: what the matcher computes is what the specification says the rule means *)
+Theorem C07_matches_spec : forall ns r s a m b,
+  path_wf r -> rule_matches ns r s a m false = Some b -> spec_matches ns (abs_rule r) s a m = b.
+Proof. exact matches_spec. Qed.
+Print Assumptions C07_matches_spec.
+
+(* in every state reachable by AddMatch / RemoveMatch / disconnect histories, a broadcast signal that is
+   dispatched without a Fault goes exactly once to exactly the connections holding a rule that matches
+   according to the specification *)
+Theorem C07_broadcast_delivery : forall limit mk ns c m l,
+  reachable limit mk -> m_dest m = None -> m_type m = DBUS_MESSAGE_TYPE_SIGNAL ->
+  dispatch ns mk c m = Some (RDelivered l) ->
+  NoDup l /\
+  forall x, In x l <-> exists r, In r mk /\ r_owner r = x /\ spec_matches ns (abs_rule r) (Some c) None m = true.
+Proof. exact broadcast_delivery. Qed.
+Print Assumptions C07_broadcast_delivery.
+
+Theorem C07_unicast_delivery : forall limit mk ns c m d a l,
+  reachable limit mk -> m_dest m = Some d -> bytes_eqb d S_org_freedesktop_DBus = false -> owner_of ns d = Some a ->
+  dispatch ns mk c m = Some (RDelivered l) ->
+  NoDup l /\ In a l /\
+  forall x, x <> a -> (In x l <-> exists r, In r mk /\ r_owner r = x /\ spec_matches ns (abs_rule r) (Some c) (Some a) m = true).
+Proof. exact unicast_delivery. Qed.
+Print Assumptions C07_unicast_delivery.
+
+(* ===== 2. memory safety of the matcher ================================================================= *)
+(* full statement (what the property asks): no rule text and no message make the matcher read outside
+   its buffers.  The faithful model does NOT satisfy it (F6). *)
+Definition C07_no_fault_full_statement : Prop :=
+  forall c text r ns s a m skip, parse_rule c text = POk r -> rule_matches ns r s a m skip <> None.
+
+Theorem C07_no_fault_partial : forall ns r s a m skip,
+  no_empty_argpath r -> rule_matches ns r s a m skip <> None.
+Proof. exact no_fault. Qed.
+Print Assumptions C07_no_fault_partial.
+
+Theorem C07_no_fault_refuted : ~ C07_no_fault_full_statement.
+Proof.
+  intros H. destruct (parse_rule 1 T_argpath_empty) as [| |r] eqn:E; try (vm_compute in E; discriminate).
+  apply (H 1 T_argpath_empty r [] None None (M_sig [AStr [120]]) false E).
+  vm_compute in E. inversion E; subst r. vm_compute. reflexivity.
+Qed.
+Print Assumptions C07_no_fault_refuted.
+
+(* ===== 3. RemoveMatch ==================================================================================== *)
+(* full statement: rules are equal exactly when they are the same rule *)
+Definition C07_rule_equal_full_statement : Prop := forall a b, rule_equal a b = true <-> a = b.
+
+Theorem C07_rule_equal_partial : forall a b, ns_values_agree a b -> (rule_equal a b = true <-> a = b).
+Proof. exact rule_equal_eq. Qed.
+Print Assumptions C07_rule_equal_partial.
+
+Theorem C07_rule_equal_refuted : ~ C07_rule_equal_full_statement.
+Proof.
+  intros H.
+  destruct (parse_rule 1 T_pns_x) as [| |x] eqn:Ex; try (vm_compute in Ex; discriminate).
+  destruct (parse_rule 1 T_pns_y) as [| |y] eqn:Ey; try (vm_compute in Ey; discriminate).
+  vm_compute in Ex, Ey. inversion Ex; subst x. inversion Ey; subst y.
+  match goal with |- _ => pose proof (proj1 (H _ _) (eq_refl : rule_equal
+     (mkRule 1 None None None None None (Some (true, [47;120])) false [])
+     (mkRule 1 None None None None None (Some (true, [47;121])) false []) = true)) as F end.
+  discriminate F.
+Qed.
+Print Assumptions C07_rule_equal_refuted.
+
+(* removal by value: exactly one rule goes — the newest rule_equal one; None iff there is none *)
+Theorem C07_remove : forall m v,
+  match remove_rule_by_value m v with
+  | Some m' => exists l1 r l2, m = l1 ++ r :: l2 /\ m' = l1 ++ l2 /\ rule_equal r v = true /\
+                               (forall x, In x l2 -> rule_equal x v = false)
+  | None => forall x, In x m -> rule_equal x v = false
+  end.
+Proof. exact remove_rule_by_value_spec. Qed.
+Print Assumptions C07_remove.
+
+(* full statement: a RemoveMatch is answered once — success, or the MatchRuleNotFound error.  Refuted (F9). *)
+Definition C07_remove_single_reply_full_statement : Prop :=
+  forall m c text, snd (handle_remove_match m c text) <> RepOkThenNotFound.
+
+Theorem C07_remove_single_reply_refuted : ~ C07_remove_single_reply_full_statement.
+Proof. intros H. apply (H [] 1 T_terr). vm_compute. reflexivity. Qed.
+Print Assumptions C07_remove_single_reply_refuted.
+
+(* ===== 4. disconnect and invariants of every history ========================================================= *)
+Theorem C07_disconnect_clears : forall m c name r, In r (handle_disconnect m c name) -> r_owner r <> c.
+Proof. exact disconnect_clears. Qed.
+Print Assumptions C07_disconnect_clears.
+
+Theorem C07_disconnect_keeps : forall m c name r,
+  In r m -> r_owner r <> c -> r_sender r <> Some name -> r_dest r <> Some name -> In r (handle_disconnect m c name).
+Proof. exact disconnect_keeps. Qed.
+Print Assumptions C07_disconnect_keeps.
+
+Theorem C07_reachable_inv : forall limit m, reachable limit m ->
+  Forall rule_ok m /\ (forall c, n_match_rules m c <= limit).
+Proof. exact reachable_inv. Qed.
+Print Assumptions C07_reachable_inv.
+
+(* ===== 5. the grammar ============================================================================================ *)
+(* full statement: AddMatch accepts exactly the rule strings of the specified grammar and quoting, and
+   reads them as specified *)
+Definition C07_parse_full_statement : Prop :=
+  forall c s, no_nul s ->
+  match parse_rule c s, spec_parse c s with
+  | POk r, SPOk sr => srule_eqb (abs_rule r) sr = true
+  | PInvalid, SPInvalid | PLimits, SPLimits => True
+  | _, _ => False
+  end.
+
+(* exact description of the tokenizer (which items reach the per-key checks) *)
+Theorem C07_tokenize_exact : forall s, no_nul s -> bs_sensitive SItemStart s = false ->
+  option_map token_prefix (tokenize s) = as_implemented MAX_RULE_TOKENS (spec_tokens s).
+Proof. exact tokenize_exact. Qed.
+Print Assumptions C07_tokenize_exact.
+
+(* agreement outside the known classes: no item beginning with '=', fewer than MAX_RULE_TOKENS items, no
+   unquoted backslash followed by ',' or '\' *)
+Theorem C07_tokenize_partial : forall s ts e, no_nul s -> bs_sensitive SItemStart s = false ->
+  spec_tokens s = (ts, e) -> e <> SEmptyKey -> (length ts < MAX_RULE_TOKENS)%nat ->
+  option_map token_prefix (tokenize s) = match e with SEndOk => Some ts | _ => None end.
+Proof. exact tokenize_agrees. Qed.
+Print Assumptions C07_tokenize_partial.
+
+Theorem C07_parse_refuted : ~ C07_parse_full_statement.
+Proof.
+  intros H. specialize (H 1 T_eq_x).
+  assert (Hn : no_nul T_eq_x) by (repeat constructor; discriminate).
+  specialize (H Hn). vm_compute in H. exact H.
+Qed.
+Print Assumptions C07_parse_refuted.
+
+(* the other classes, each with its own witness *)
+Theorem C07_parse_refuted_token_cap : parse_rule 1 T_t17 <> PInvalid /\ spec_parse 1 T_t17 = SPInvalid.
+Proof. split; vm_compute; [discriminate | reflexivity]. Qed.
+Print Assumptions C07_parse_refuted_token_cap.
+
+Theorem C07_parse_refuted_backslash :
+  exists r sr, parse_rule 1 T_specex = POk r /\ spec_parse 1 T_specex = SPOk sr /\ srule_eqb (abs_rule r) sr = false /\
+               r_args r = [Some (ArgString, [39]); Some (ArgString, [92;44;97;114;103;50;61;44]); None; Some (ArgString, [92;92])] /\
+               sr_cons sr = [CArg 0 ArgString [39]; CArg 1 ArgString [92]; CArg 2 ArgString [44]; CArg 3 ArgString [92;92]].
+Proof. vm_compute. eexists. eexists. repeat split. Qed.
+Print Assumptions C07_parse_refuted_backslash.
+
+Theorem C07_parse_refuted_arg_key :
+  exists r, parse_rule 1 T_arg010 = POk r /\ nth_error (r_args r) 8 = Some (Some (ArgString, [120])) /\ spec_parse 1 T_arg010 = SPInvalid.
+Proof. vm_compute. eexists. repeat split. Qed.
+Print Assumptions C07_parse_refuted_arg_key.
+
+(* ===== non-vacuity =================================================================================================== *)
+Example ex_parse_ok : exists r, parse_rule 1 T_good = POk r /\ rule_ok r /\ no_empty_argpath r.
+Proof.
+  vm_compute parse_rule. eexists. split; [reflexivity|]. split; [split; exact I || reflexivity|].
+  intros v [E|[E|[]]]; inversion E. discriminate.
+Qed.
+Example ex_spec_agrees : match parse_rule 1 T_good, spec_parse 1 T_good with POk r, SPOk sr => srule_eqb (abs_rule r) sr = true | _, _ => False end.
+Proof. vm_compute. reflexivity. Qed.
+Example ex_match_yes : exists r, parse_rule 1 T_good = POk r /\ rule_matches [] r None None (M_sig [AStr [47;97;47;98]]) false = Some true.
+Proof. vm_compute. eexists. split; reflexivity. Qed.
+Example ex_match_no : exists r, parse_rule 1 T_good = POk r /\ rule_matches [] r None None (M_sig [AStr [120]]) false = Some false.
+Proof. vm_compute. eexists. split; reflexivity. Qed.
+Example ex_reachable : exists m, reachable 512 m /\ m <> [] /\
+  dispatch [] m 9 (M_sig [AStr [47;97;47;98]]) = Some (RDelivered [1]).
+Proof.
+  exists (fst (handle_add_match 512 true (fst (handle_add_match 512 true [] 1 T_good)) 1 T_good)).
+  split; [apply reach_add, reach_add, reach_empty|]. vm_compute. split; [discriminate | reflexivity].
+Qed.
+Example ex_tokenize_hyp : no_nul T_good /\ bs_sensitive SItemStart T_good = false /\ snd (spec_tokens T_good) = SEndOk.
+Proof. split; [repeat constructor; discriminate | split; vm_compute; reflexivity]. Qed.
